@@ -410,6 +410,10 @@ func runLedger(c *vlib.Ctx, exts []ext) (*ledgerStats, chain.RunStats) {
 			cfg.Templates = rn.tpl
 			cfg.NoPost = true
 			cfg.MaxReverts = 1
+			if len(rn.tpl) == len(chain.AllTemplates) {
+				// the defect catalogue of Ledger.tla (BadTxn): blocks the model rejects also only ever have to be rejected
+				cfg.Defects = []string{"unbalanced", "zero", "auth", "intx", "revision", "proof", "formation", "reuse", "era", "immature", "timing", "early"}
+			}
 			opts := chain.RunOpts{Num: rn.num, Depth: 48, Timeout: 15 * time.Minute, Workers: 3,
 				NewSim: func(sim *chain.Sim) {
 					mu.Lock()
